@@ -17,6 +17,8 @@ VLong(o) == IF o.obs.result # "ok" THEN "not-ok"
             ELSE IF o.obs.read # o.items THEN "roundtrip-long" ELSE "ok"
 V01(o) == IF o.long = 1 THEN VLong(o) ELSE
           IF o.obs.result # "ok" THEN "not-ok"
+          \* the generic opener must recognise the file as a bigWig with the same chromosome table
+          ELSE IF "generic" \in DOMAIN o.obs /\ (o.obs.generic.kind # "bw" \/ o.obs.generic.chroms # o.obs.chroms) THEN "generic-open"
           ELSE IF RoundTripOK(o.items, o.chroms, o.obs) THEN "ok"
           ELSE IF RoundTripKnownF14(o.items, o.chroms, o.obs) THEN "known:F14"
           ELSE IF ~ChromTableOK(o.items, o.chroms, o.obs.chroms) THEN "chromtable"
@@ -53,7 +55,7 @@ V07(o) == IF o.obs.result # "ok" THEN "not-ok"
 Verdict(o) == CASE Prop = "C01" -> V01(o) [] Prop = "C03" -> V03(o) [] Prop = "C06" -> V06(o) [] Prop = "C07" -> V07(o)
 
 \* drift: the real tiling differs from the mechanism layer although it is faithful
-Drift(o) == Prop = "C07" /\ o.obs.result = "ok" /\ o.opts.zmode = "manual" /\ o.scale = 1 /\ o.obs.zooms # o.mz
+Drift(o) == Prop = "C07" /\ o.obs.result = "ok" /\ o.opts.zmode = "manual" /\ o.scale = 1 /\ "nomech" \notin DOMAIN o /\ o.obs.zooms # o.mz
 
 Post == /\ \A i \in 1..Len(Obs) : LET v == Verdict(Obs[i]) IN
                                   /\ (v = "ok" \/ PrintT(<<"BAD", i, v>>))
